@@ -36,7 +36,7 @@ CLASSES = [
     "terminal_inside_film", "terminal_outside_film", "seed_other_device", "seed_other_device_shared_mesh", "seed_device_modified_in_place", "A_wrong_shape_1col", "A_wrong_shape_flat", "A_wrong_length",
     "A_plain_callable_1col", "A_plain_callable_flat", "A_plain_callable_wrong_length", "A_plain_callable_transposed", "unbalanced_const_small_current",
     "late_opt_dt", "late_opt_terminal_psi", "late_opt_multiplier_high", "late_opt_drag_zero", "late_opt_sparse_unknown",
-    "opt_dt_fixed_step", "terminal_moved_off_boundary_after_solve",
+    "opt_dt_fixed_step", "terminal_moved_off_boundary_after_solve", "single_terminal_with_current", "single_terminal_with_callable_current",
     "terminal_tiny_on_vertex", "seed_device_without_terminals", "seed_device_first_terminal_only", "seed_device_fewer_holes",
     "polygon_self_intersecting", "polygon_two_points", "polygon_bad_shape", "film_unnamed", "hole_unnamed", "hole_duplicate_names",
     "terminal_duplicate_names", "terminal_unnamed", "probe_outside_film", "probe_in_hole", "probe_bad_shape",
@@ -178,6 +178,14 @@ def run_case(spec):
                     dspec["terminals"][0].update(center=[0.0, 0.0], w=0.05 * dspec["film"]["w"], h=0.05 * dspec["film"]["h"])
                 elif cls == "terminal_outside_film":
                     dspec["terminals"][0]["center"] = [dspec["film"]["w"] * 3, 0.0]
+                elif cls in ("single_terminal_with_current", "single_terminal_with_callable_current"):
+                    # ONE terminal and a current through it: nothing can balance it
+                    dspec["terminals"] = dspec["terminals"][:1]
+                    dspec["probes"] = None
+                    only = dspec["terminals"][0]["name"]
+                    tc = {only: float(rng.choice([0.5, 1e-3, 1e-6]))}
+                    if cls == "single_terminal_with_callable_current":
+                        tc = (lambda t, d=dict(tc): dict(d))
                 elif cls == "terminal_tiny_on_vertex":
                     # a terminal much smaller than one boundary edge, sitting on a single vertex of the film outline:
                     # it contains a boundary site but covers no boundary length
@@ -208,6 +216,8 @@ def run_case(spec):
                     tc = {k: v * f for k, v in tc.items()}
                     k = next(k for k in names if tc[k])
                     tc[k] = tc[k] * (1 + mag)
+                elif cls in ("single_terminal_with_current", "single_terminal_with_callable_current"):
+                    pass  # (handled below: the device keeps only its first terminal)
                 elif cls == "unknown_terminal":
                     # a misspelt terminal name carrying the balancing current
                     tc = dict(tc); k = names[-1]; tc[k + "_typo"] = tc.pop(k)
